@@ -33,7 +33,7 @@ ASSUMPTIONS = [
     "as_obj is modelled top-down: a payload position whose id is registered yields the registered object and its payload subtree is not visited",
     "at digest sizes 1 and 2 only the un-suffixed part of a fresh id is required to be deterministic (different contents collide)",
 ]
-MUST_SEE = ["remodelled_class_detach", "replace_without_changes", "id_determinism_checks_with_occupied_neighbours", 
+MUST_SEE = ["failing_duplicate", "remodelled_class_detach", "replace_without_changes", "id_determinism_checks_with_occupied_neighbours", 
     "op_detach_stale_with_live_twin", "op_replace_fail", "drops", "suffix_ge_2", "detach_depth_ge2", "asobj_recreated",
     "asobj_reused", "digest1_histories", "dead_weakrefs_checked", "replace_on_stale", "id_determinism_checks", "replace_fail_after_registration",
 ]
@@ -478,6 +478,8 @@ def run_shard(ctx):
     if ctx.only_case is None:
         remodel_leg(ctx, U)
         collect()
+        failing_duplicate_leg(ctx, U)
+        collect()
 
 
 def remodel_leg(ctx, U):
@@ -497,6 +499,36 @@ def remodel_leg(ctx, U):
     left = [i for i in ids if ASTNode.get_any(i) is not None]
     if left:
         ctx.violation("registry-vs-model", "detach() of a node whose class was defined again (more child fields) left descendants registered", {"class": new.__name__, "still_registered": len(left), "fields": ["first", "second", "third"]})
+
+
+def failing_duplicate_leg(ctx, U):
+    """duplicate() that fails at a nested node (a node class with an InitVar cannot be copied): the registry stays as it was"""
+    from pyoak.node import NODE_REGISTRY, ASTNode
+
+    P = U.P
+    src = f"@dataclass(frozen=True)\nclass {P}Scaled({P}Expr):\n    scale: InitVar[int]\n    name: str = ''\n    leaf: {P}Expr | None = None\n\n    def __post_init__(self, scale):\n        super().__post_init__()\n"
+    exec(compile("from dataclasses import InitVar\n" + src, "<c03 initvar>", "exec", dont_inherit=True), U.module.__dict__)
+    Scaled, Leaf, Lst, Un = U.module.__dict__[f"{P}Scaled"], U.cls[f"{P}Leaf"], U.cls[f"{P}List"], U.cls[f"{P}Un"]
+    for k in range(4):
+        inner = Scaled(name="s", leaf=Leaf(v=50 + k), scale=3)
+        sibs = (Un(child=Leaf(v=60 + k)), inner, Leaf(v=70 + k)) if k % 2 else (inner, Un(child=Leaf(v=60 + k)))
+        top = Lst(items=sibs, root=Leaf(v=80 + k))
+        alive = [x.node for x in top.dfs()] + [top]
+        before = {n.id: ASTNode.get_any(n.id) is n for n in alive}
+        size0 = len(NODE_REGISTRY)
+        ctx.evaluations += 1
+        try:
+            top.duplicate()
+            ctx.count("duplicate_did_not_fail")
+        except Exception:  # noqa: BLE001
+            ctx.count("failing_duplicate")
+        gone = [type(n).__name__ for n in alive if before[n.id] and ASTNode.get_any(n.id) is not n]
+        import gc
+
+        gc.collect()
+        if gone or len(NODE_REGISTRY) != size0:
+            ctx.violation("registry-vs-model", "a duplicate() that raised at a nested node changed the registry (originals no longer returned / copies left behind)", {"no_longer_returned": gone, "registry_size": (size0, len(NODE_REGISTRY))})
+        top.detach()
 
 
 def merge(extras, counters):
